@@ -99,6 +99,7 @@ RECEIVER_COMPONENT = {
     "core_proxy": "Core",
     "frontend": "Frontend",
 }
+REGISTRY_CLASS_COMPONENT = {"Core": "Core", "Audio": "Audio"}
 FILE_RECEIVER_COMPONENT = {
     ("internal/process.py", "actor"): "AnyActor",
     ("internal/jsonrpc.py", "result"): "Core",  # the mounted objects are core proxies (http/handlers.py)
@@ -214,6 +215,13 @@ class _FileScan(ast.NodeVisitor):
 
     def classify_expr(self, expr, depth=0):
         """Component an expression's value (a proxy / future / collection of futures) belongs to."""
+        if isinstance(expr, ast.IfExp):
+            return self.classify_expr(expr.body, depth + 1) | self.classify_expr(expr.orelse, depth + 1)
+        if isinstance(expr, ast.Call) and isinstance(expr.func, ast.Attribute) and expr.func.attr == "get_by_class" \
+                and (_dotted(expr.func.value) or "").endswith("ActorRegistry"):
+            # registry lookup: refs of the named actor class (unknown class: any actor)
+            arg = _dotted(expr.args[0]) if expr.args else None
+            return {REGISTRY_CLASS_COMPONENT.get((arg or "").split(".")[-1], "AnyActor")}
         root = _chain_root(expr)
         comp = self.classify_root(root)
         if comp is not None:
